@@ -176,7 +176,7 @@ pub fn run(ctx: &Ctx) {
         check_val,
     );
     let max_len = t.pick(600usize, 3000);
-    let n = t.pick(150_000u64, 1_500_000);
+    let n = t.pick(150_000u64, 5_000_000);
     ctx.generated("random-values", "val", n, "1..max digits, all shapes, scales in +-80 / +-3000 / +-20000 / +-10^15", move || val_strategy(max_len), check_val);
     ctx.generated("thresholds", "val", n, "0.000ddd at leading-zero counts 2..8, integers with 12..18 trailing zeros, zeros, point at either end of the digits", threshold_strategy, check_val);
 }
